@@ -706,7 +706,24 @@ func (r *Run) stepLongIter() {
 // position.
 func (r *Run) batchIterRefresh(io *iterObj) {
 	bo := io.batch
-	r.iterOps(io, 1+r.rng.IntN(4))
+	limited := false
+	if r.K.Limits && r.rng.IntN(3) == 0 {
+		// end the first burst with a limited seek whose limit is close to the
+		// seek key, so that the iterator is likely to pause at the limit
+		k := r.randSeekKey()
+		p, _ := model.SplitKey(k)
+		io.forceLimitSeek = [2]string{k, pick(r.rng, p+"\x00", p+"\x00", p+fmt.Sprintf("@%d", 1))}
+		if model.Cmp(io.forceLimitSeek[1], k) <= 0 {
+			io.forceLimitSeek = [2]string{}
+		} else {
+			limited = true
+		}
+	}
+	if limited {
+		r.iterOps(io, 1)
+	} else {
+		r.iterOps(io, 1+r.rng.IntN(4))
+	}
 	if r.failed {
 		return
 	}
@@ -728,6 +745,15 @@ func (r *Run) batchIterRefresh(io *iterObj) {
 	if cur, on := io.m.Cur(); on && r.rng.IntN(2) == 0 {
 		p, _ := model.SplitKey(cur.Key)
 		io.forceFirstSeek = pick(r.rng, cur.Key, cur.Key, p, p+fmt.Sprintf("@%d", r.Cfg.MaxSuffix+1))
+	} else if !on && io.lastSeek != "" && (limited || r.rng.IntN(2) == 0) {
+		// not on a key (exhausted, or paused at a limit): seek again at or
+		// just after the previous seek key
+		lp, ls := model.SplitKey(io.lastSeek)
+		after := io.lastSeek + "\x00"
+		if ls != "" || strings.HasSuffix(lp, "\x00") {
+			after = io.lastSeek
+		}
+		io.forceFirstSeek = pick(r.rng, io.lastSeek, io.lastSeek, after)
 	}
 	r.log("iter@%d on batch%d SetOptions(same %v) [refresh]", io.born, bo.id, mo)
 	io.full = append(io.full, "SetOptions(same)")
@@ -936,9 +962,14 @@ func (r *Run) iterOps(io *iterObj, n int) {
 	var forcedKey string
 	// seekKey draws a seek key, sometimes repeating the iterator's previous
 	// seek key (the no-op / paused-position seek shortcuts of Iterator).
+	var forcedLimit string
 	if io.forceFirstSeek != "" {
 		pending = append(pending, "SeekGE")
 		forcedKey, io.forceFirstSeek = io.forceFirstSeek, ""
+	} else if io.forceLimitSeek[0] != "" && r.K.Limits {
+		pending = append(pending, "SeekGEWithLimit")
+		forcedKey, forcedLimit = io.forceLimitSeek[0], io.forceLimitSeek[1]
+		io.forceLimitSeek = [2]string{}
 	}
 	seekKey := func(i int) string {
 		k := r.seekKeyFor(m, i)
@@ -1153,7 +1184,14 @@ func (r *Run) iterOps(io *iterObj, n int) {
 			r.limitResult(op+"("+l+")", io, res, N, ok, ok && model.Cmp(N.Key, l) >= 0, func() { m.Prev() }, func() { m.PauseBackward(false, "") }, bad)
 		case "SeekGEWithLimit":
 			k := seekKey(i)
+			if forcedKey != "" {
+				k, forcedKey = forcedKey, ""
+				io.lastSeek = k
+			}
 			l := r.randSeekKey()
+			if forcedLimit != "" {
+				l, forcedLimit = forcedLimit, ""
+			}
 			if model.Cmp(l, k) <= 0 {
 				continue
 			}
